@@ -483,7 +483,11 @@ def run(ctx):
                 for x in f.walk(a):
                     m = f.nodes[x]
                     if m["k"] == "ref" and m["name"] in loads.get(obj, ()):
-                        dep = True
+                        # ... unless the variable was given a freshly computed value in between (idempotent cache fill)
+                        redefined = any(q["k"] == "bin" and q["op"] == "=" and f.sn(q["l"])["k"] == "ref" and f.sn(q["l"])["name"] == m["name"]
+                                        and f.sn(q["r"])["k"] != "atomic" for q in f.nodes.values())
+                        if not redefined:
+                            dep = True
             if dep:
                 r4.violation("%s:%s:split-rmw" % (f.name, obj[1]), "%s loads %s atomically and stores a value computed from it with a separate atomic store: "
                              "two threads can read the same value (lost update / duplicate value)" % (f.name, obj[1]), loc=f.loc(nid))
